@@ -88,7 +88,10 @@ func genF(r *vh.Rand) string {
 	if enc == "g" {
 		q = r.Range(-2, 9)
 	} else {
-		q = r.Range(0, 11)
+		q = r.Range(0, 9)
+		if r.Chance(1, 10) { // qualities 10 and 11 are slow (large encoder state): keep them rare
+			q = r.Range(10, 11)
+		}
 	}
 	// body size biased to multiples / neighbours of the flush size
 	var total int
@@ -180,7 +183,7 @@ func genR(r *vh.Rand) string {
 		q = r.Pick("-3", "-2", "-1", "0", "9", "10", "11", "12", "m", "100", "-100")
 	case 1, 2:
 		if cmd == "B" {
-			q = strconv.Itoa(r.Range(0, 11))
+			q = strconv.Itoa(r.Range(0, 9))
 		} else {
 			q = strconv.Itoa(r.Range(-2, 9))
 		}
